@@ -66,6 +66,7 @@ def showResp30 (ck : Clock) (verb : String) : Resp30 → String
   | .skip => "skip"
 
 structure D30 where
+  ar : Arith := ieee
   cfg : Cfg
   e : ExpCfg
   s : State := {}
@@ -136,10 +137,10 @@ def stepLine30 (d : D30) (line : String) : D30 × String :=
         | none => (d, "bad-op")
         | some req =>
           let ck : Clock := { d.ck with nows := now :: d.ck.nows }
-          let o := Model30.step d.cfg d.e ieee now d.s req
+          let o := Model30.step d.cfg d.e d.ar now d.s req
           let before := Model.abs d.s
           -- (1) a shown record whose stored expiry is pre-epoch
-          let pre := !d.s.dead && (shownKeys o.r).any fun k => decide (storedExp d.s k < 0)
+          let pre := !d.s.dead && !d.ar.expNe0 && (shownKeys o.r).any fun k => decide (storedExp d.s k < 0)
           -- (2) an expiry-driven selection that differs from the definition applied to the store
           -- equal expiries on different keys leave the index order open (unstable sort): no verdict then
           let exps := (before.map fun p => p.2.m.exp).filter (· != 0)
@@ -147,17 +148,22 @@ def stepLine30 (d : D30) (line : String) : D30 × String :=
           let stale := !d.s.dead && !ties && (match refKeys now before req with
             | some ks => (match o.r with | .err _ => false | _ => decide (ks ≠ replyKeys o.r))
             | none => false)
-          let tags := match req with | .kv r => (Model.step d.cfg ieee now d.s r).tags | _ => []
-          let lastTag := match pickTag tags with | some t => some t | none => d.lastTag
+          let tags := match req with | .kv r => (Model.step d.cfg d.ar now d.s r).tags | _ => []
+          -- the one mechanism known to move an expiry past the index stays the explanation of a stale
+          -- index for the rest of the case, whatever else happens afterwards
+          let lastTag := if d.lastTag == some Tag.incFailTrace || tags.contains Tag.incFailTrace then some Tag.incFailTrace
+                         else match pickTag tags with | some t => some t | none => d.lastTag
           let flag :=
             if pre then "\t#F:C30-preepoch-expiry-invisible"
-            else if stale then "\t#F:C30-" ++ (match lastTag with | some t => tagId t | none => "expiry-paths-disagree")
+            else if stale then "\t#F:C30-" ++
+              (if !d.e.good then "expiry-site-deviates"
+               else match lastTag with | some t => tagId t | none => "expiry-paths-disagree")
             else ""
           ({ d with s := o.s, ck := ck, opNo := opNo, lastTag := lastTag }, showResp30 ck verb o.r ++ flag)
 
 def run (args : List String) : IO UInt32 := do
   let kv := parseArgs args
-  lineLoop stepLine30 { cfg := cfgOfArgs kv, e := expCfgOfArgs kv }
+  lineLoop stepLine30 { cfg := cfgOfArgs kv, e := expCfgOfArgs kv, ar := ieeeWith (arg kv "wireGet" == "ne0") }
   return 0
 
 end Driver.C30
